@@ -345,7 +345,11 @@ def unmatched_witness(rep, tools):
     exit 75 with nothing stored is the repaired behaviour, anything else is a violation."""
     cases = [('no-rule-matches', 'stdin {\n\tmatch header "X-Skip" /yes/ move "%s/dst"\n}\n' % R),
              ('no-stdin-block', 'maildir "%s/dst" {\n\tmatch all move "%s/other"\n}\n' % (R, R)),
-             ('break-only', 'stdin {\n\tmatch all break\n\tmatch all move "%s/dst"\n}\n' % R)]
+             ('break-only', 'stdin {\n\tmatch all break\n\tmatch all move "%s/dst"\n}\n' % R),
+             # a rule matches but stores the message nowhere (no move, no discard): the labelled spool copy is removed with the spool
+             ('label-only', 'stdin {\n\tmatch all label "x"\n}\n'),
+             ('exec-only', 'stdin {\n\tmatch all exec "true"\n}\n'),
+             ('flag-only', 'stdin {\n\tmatch all flag !new\n}\n')]
     stat = {'runs': 0, 'dropped_with_exit_0': 0, 'reported': 0}
     msg = message(120, False)
     for name, conf in cases:
